@@ -247,6 +247,11 @@ func runSelfTest(repo, verif, prop string) map[string]interface{} {
 	}
 	dirs, _ := filepath.Glob(filepath.Join(verif, "seeded", prop+"-*"))
 	sort.Strings(dirs)
+	// mechanical first-order mutants that this property's rules report (regression fixtures of the checker,
+	// DESIGN.md 8.10; not validated seeds: no demonstration is attached to them)
+	mech, _ := filepath.Glob(filepath.Join(verif, "checker", "selftest-mutants", prop+"-*"))
+	sort.Strings(mech)
+	dirs = append(dirs, mech...)
 	// behaviour-preserving refactorings: this property's rules must stay silent on each
 	neutrals, _ := filepath.Glob(filepath.Join(verif, "seeded", "neutral-*"))
 	sort.Strings(neutrals)
@@ -321,9 +326,18 @@ func runSelfTest(repo, verif, prop string) map[string]interface{} {
 		<-done
 	}
 	det, nSeed, nNeutral, falseAlarms := 0, 0, 0, 0
+	nMech, detMech := 0, 0
 	for _, r := range out {
 		neutral := strings.HasPrefix(r.ID, "neutral-")
 		want := !neutral
+		if strings.Contains(r.ID, "-mut") {
+			nMech++
+			if r.Detected {
+				detMech++
+			}
+			fmt.Printf("SELFTEST property=%s variant=%s detected=%v expected=%v rules=%v %s\n", prop, r.ID, r.Detected, true, r.Rules, r.Note)
+			continue
+		}
 		if neutral {
 			nNeutral++
 			if r.Detected {
@@ -337,5 +351,5 @@ func runSelfTest(repo, verif, prop string) map[string]interface{} {
 		}
 		fmt.Printf("SELFTEST property=%s variant=%s detected=%v expected=%v rules=%v %s\n", prop, r.ID, r.Detected, want, r.Rules, r.Note)
 	}
-	return map[string]interface{}{"seeded_variants": nSeed, "detected": det, "neutral_variants": nNeutral, "neutral_false_alarms": falseAlarms, "results": out}
+	return map[string]interface{}{"seeded_variants": nSeed, "detected": det, "neutral_variants": nNeutral, "neutral_false_alarms": falseAlarms, "mechanical_mutants": nMech, "mechanical_detected": detMech, "results": out}
 }
